@@ -91,7 +91,7 @@ class Builder:
             raise RuntimeError(f"no module for class {name}")
         return getattr(importlib.import_module(mod), name)
 
-    def make(self, typ, name, values):
+    def make(self, typ, name, values, depth=0):
         typ = typ.strip()
         if typ in DEFAULTS:
             return decode(values.get(name, DEFAULTS[typ]))
@@ -101,6 +101,12 @@ class Builder:
             inner = split_top(typ[typ.index("[") + 1:-1])
             items = [self.make(t, f"{name}.{i}", values) for i, t in enumerate(inner)]
             return tuple(items) if typ.startswith("tuple[") else items
+        if typ.startswith("rec["):
+            d = {}
+            for part in split_top(typ[4:-1]):
+                k, t = part.split(":", 1)
+                d[k.strip()] = self.make(t.strip(), f"{name}.{k.strip()}", values)
+            return d
         if typ == "obj":
             return NS()
         if typ.startswith("obj:"):
@@ -111,6 +117,15 @@ class Builder:
                     o.logger = NULL_LOGGER
             except Exception:
                 pass
+            # object-typed fields declared per class (collaborators that only dropped calls touch, e.g. matcher.csvpath.logger)
+            if depth < 3:
+                for k in c.__mro__:
+                    for attr, t in self.job.get("class_fields", {}).get(k.__name__, {}).items():
+                        if str(t).startswith("obj") and attr not in o.__dict__:
+                            try:
+                                self.setattr_raw(o, attr, self.make(t, f"{name}.{attr}", values, depth + 1))
+                            except Exception:
+                                pass
             return o
         if typ.startswith("dict["):
             return dict(decode(values.get(name, {})) or {})
@@ -129,18 +144,28 @@ class Builder:
             root, *rest = path.split(".")
             if root not in env:
                 continue
+            if rest[-1].isdigit():
+                continue      # elements of fixed[...] are built with their container
             o = env[root]
             ok = True
             for a in rest[:-1]:
                 try:
-                    o = object.__getattribute__(o, a) if not isinstance(o, NS) else getattr(o, a)
-                except AttributeError:
+                    if a.isdigit():
+                        o = o[int(a)]
+                    elif isinstance(o, dict):
+                        o = o[a]
+                    else:
+                        o = o.__dict__[a] if a in getattr(o, "__dict__", {}) else getattr(o, a)
+                except (AttributeError, KeyError, IndexError, TypeError):
                     ok = False
                     break
             if not ok:
                 continue
             v = self.make(self.types[path], path, values)
-            self.setattr_raw(o, rest[-1], v)
+            if isinstance(o, dict):
+                o[rest[-1]] = v
+            else:
+                self.setattr_raw(o, rest[-1], v)
         for a, b in alias or []:
             vb = eval(b, {}, env)
             tgt = ast.parse(a, mode="eval").body
@@ -228,8 +253,14 @@ class OldRewriter(ast.NodeTransformer):
         return node
 
 
+SPEC_FUNS = {}
+
+
 def spec_env(window):
     lo, hi = window
+
+    def ufun(name, *args):
+        return SPEC_FUNS[name](*args)
 
     def forall_int(*a):
         f = a[-1]
@@ -250,7 +281,7 @@ def spec_env(window):
     return {"forall_int": forall_int, "exists_int": exists_int, "implies": lambda a, b: (not a) or bool(b),
             "iff": lambda a, b: bool(a) == bool(b), "tag": tag, "truthy": bool, "str_of": lambda v: f"{v}",
             "strip": lambda s: s.strip(), "seq_contains": lambda c, x: x in c, "same": lambda a, b: a is b or a == b,
-            "is_fresh": lambda v: True}
+            "is_fresh": lambda v: True, "ufun_bool": ufun, "ufun_val": ufun, "ufun_int": ufun, "ufun_str": ufun}
 
 
 def compile_clause(text, macros, roots):
@@ -346,6 +377,15 @@ def main():
             unit_cls = getattr(mod, cn)
         else:
             cn, fn, unit_cls = None, qual, mod
+        for dotted, src in job.get("patches", {}).items():
+            pm, pc, pa = dotted.rsplit(".", 2)
+            ns = {}
+            exec(src, ns)
+            setattr(getattr(importlib.import_module(pm), pc), pa, ns["patch"])
+        for nm, src in job.get("spec_funs", {}).items():
+            ns = {"importlib": importlib}
+            exec(src, ns)
+            SPEC_FUNS[nm] = ns["fun"]
         builder = Builder(job)
         if cn:
             builder.class_modules.setdefault(cn, modname)
